@@ -1,35 +1,56 @@
-// Harness for C17 (notifier): a stateful protocol over 2 notifiers and 5 targets (area `notifier`; area `nwb` = the same
-// plus white-box `dump` lines comparing the three internal maps with the model's association lists), and a
+// Harness for C17 (notifier): a stateful protocol over 3 notifiers and 128 targets (area `notifier`; area `nwb` = the
+// same plus white-box `dump` lines comparing the three internal maps with the model's association lists), and a
 // multi-goroutine stress oracle meant for the -race build (area `race`).
 //
-// Targets: 0 plain, 1 batch, 2 plain+panics, 3 batch+panics (HandleNotification and BatchMode), 4 batch.
+// Notifiers: 0 normal recovery handler, 1 a recovery handler that itself panics after counting the report (errs.Recovery
+// guards against that), 2 created with a nil recovery handler (reports unobservable: both sides print rec=0).
+// Targets: 0 plain, 1 batch, 2 plain+panics, 3 batch+panics (HandleNotification and BatchMode), 4 batch, 6 plain and
+// RE-ENTRANT (executes an armed Register/Unregister/SetEnabled/Reset/RegisterFromNotifier on a notifier from inside its
+// HandleNotification); ids >= 5: batch iff id%3 == 1, panics iff id%5 == 2 (same tables in Nt.batchCapable / the driver).
+// Panicking targets cycle through the kinds of panic value: string, error, runtime error, typed-nil pointer, nil,
+// struct value, errs.Error.
 // After each operation the harness prints the calls received by the targets since the previous operation in
 // canonical form: `order-ok|order-bad` (the raw HandleNotification sequence is non-increasing in the priority that the
 // harness' own registry -- a plain name->target->priority table, the specification relation `registered` -- gives for
 // the most specific matching name), then the calls sorted by (priority descending, target ascending), then the number
 // of reports the recovery handler received, then BatchLevel() and Enabled().
+// Operations run on the main goroutine with no timer pending: a lock taken twice (e.g. a notifier that delivered while
+// holding its lock, hit by the re-entrant target) makes the Go runtime abort at once with "all goroutines are asleep",
+// which the check reports as a crash of that line -- a hang costs no wall time.
 package main
 
 import (
+	"errors"
 	"fmt"
-	"math"
+	"reflect"
 	"sort"
 	"strconv"
 	"strings"
 
+	"github.com/richardwilkes/toolbox/errs"
 	"github.com/richardwilkes/toolbox/notifier"
 	"verifharness/hx"
 )
 
 const (
-	numNotifiers = 2
-	numTargets   = 5
+	numNotifiers = 3
+	numTargets   = 128
+	reentrant    = 6
 )
 
-var (
-	isBatch = [numTargets]bool{false, true, false, true, true}
-	panics  = [numTargets]bool{false, false, true, true, false}
-)
+func isBatch(t int) bool {
+	if t < 5 {
+		return t == 1 || t == 3 || t == 4
+	}
+	return t%3 == 1
+}
+
+func panics(t int) bool {
+	if t < 5 {
+		return t == 2 || t == 3
+	}
+	return t%5 == 2
+}
 
 type call struct {
 	batch bool
@@ -48,6 +69,68 @@ type world struct {
 	shadow   [numNotifiers]map[string]map[int]int // the specification relation: name -> target -> priority
 	wantData any
 	wantProd any
+	armed    []string   // operation the re-entrant target performs inside its next HandleNotification
+	deferred [][]string // registry updates of fired re-entrant operations, applied after the observation
+	boom     int        // cycles through the panic value kinds
+}
+
+type payload struct {
+	a int
+	b string
+}
+
+// dataKinds are the values passed to NotifyWithData (pass-through is checked by the targets).
+func (w *world) dataKind(k int) any {
+	switch k {
+	case 0:
+		return nil
+	case 1:
+		return 42
+	case 2:
+		return "data"
+	case 3:
+		return w.ts[0]
+	case 4:
+		return payload{a: 7, b: "x"}
+	case 5:
+		return []int{1, 2, 3}
+	case 6:
+		return map[string]int{"k": 1}
+	case 7:
+		return errors.New("an error as data")
+	case 8:
+		return (*payload)(nil)
+	default:
+		return 3.5
+	}
+}
+
+func same(a, b any) bool {
+	if a == nil || b == nil {
+		return a == nil && b == nil
+	}
+	return reflect.DeepEqual(a, b)
+}
+
+func (w *world) explode(what string, id int) {
+	w.boom++
+	switch w.boom % 7 {
+	case 0:
+		panic(fmt.Sprintf("target %d %s", id, what))
+	case 1:
+		panic(errors.New("an error value"))
+	case 2:
+		var m map[int]int
+		m[id] = 1 // runtime error
+	case 3:
+		panic((*plainT)(nil))
+	case 4:
+		panic(nil) //nolint:govet // on purpose
+	case 5:
+		panic(payload{a: id})
+	default:
+		panic(errs.New("an errs.Error"))
+	}
 }
 
 type plainT struct {
@@ -56,9 +139,16 @@ type plainT struct {
 }
 
 func (t *plainT) HandleNotification(name string, data, producer any) {
-	t.w.calls = append(t.w.calls, call{t: t.id, name: name, bad: data != t.w.wantData || producer != t.w.wantProd})
-	if panics[t.id] {
-		panic(fmt.Sprintf("target %d", t.id))
+	w := t.w
+	w.calls = append(w.calls, call{t: t.id, name: name, bad: !same(data, w.wantData) || !same(producer, w.wantProd)})
+	if t.id == reentrant && w.armed != nil {
+		f := w.armed
+		w.armed = nil
+		w.implOp(f)
+		w.deferred = append(w.deferred, f)
+	}
+	if panics(t.id) {
+		w.explode("handle", t.id)
 	}
 }
 
@@ -66,19 +156,21 @@ type batchT struct{ plainT }
 
 func (t *batchT) BatchMode(start bool) {
 	t.w.calls = append(t.w.calls, call{batch: true, t: t.id, start: start})
-	if panics[t.id] {
-		panic(fmt.Sprintf("target %d batch", t.id))
+	if panics(t.id) {
+		t.w.explode("batch", t.id)
 	}
 }
 
 func newWorld() *world {
 	w := &world{ids: make(map[notifier.Target]int)}
+	w.ns[0] = notifier.New(func(error) { w.recs++ })
+	w.ns[1] = notifier.New(func(error) { w.recs++; panic("bad recovery handler") })
+	w.ns[2] = notifier.New(nil)
 	for i := range w.ns {
-		w.ns[i] = notifier.New(func(error) { w.recs++ })
 		w.shadow[i] = make(map[string]map[int]int)
 	}
 	for i := range w.ts {
-		if isBatch[i] {
+		if isBatch(i) {
 			w.ts[i] = &batchT{plainT{w: w, id: i}}
 		} else {
 			w.ts[i] = &plainT{w: w, id: i}
@@ -155,10 +247,82 @@ func (w *world) observe(n int) string {
 	if w.ns[n].Enabled() {
 		e = 1
 	}
+	if n == 2 {
+		w.recs = 0 // nil recovery handler
+	}
 	out := fmt.Sprintf("%s | rec=%d | L%d E%d", strings.Join(toks, " "), w.recs, w.ns[n].BatchLevel(), e)
 	w.calls = w.calls[:0]
 	w.recs = 0
 	return out
+}
+
+func idx(s string, lim int) int {
+	v := hx.Atoi(s)
+	if v < 0 || v >= lim {
+		panic("index")
+	}
+	return v
+}
+
+// implOp performs a state-changing operation on the real notifier (no observation, no registry update).
+func (w *world) implOp(f []string) {
+	n := idx(f[1], numNotifiers)
+	switch f[0] {
+	case "reg":
+		names := make([]string, 0, len(f)-4)
+		for _, h := range f[4:] {
+			names = append(names, string(hx.UnHex(h)))
+		}
+		w.ns[n].Register(w.ts[idx(f[2], numTargets)], hx.Atoi(f[3]), names...)
+	case "unreg":
+		w.ns[n].Unregister(w.ts[idx(f[2], numTargets)])
+	case "merge":
+		w.ns[n].RegisterFromNotifier(w.ns[idx(f[2], numNotifiers)])
+	case "enable":
+		w.ns[n].SetEnabled(f[2] == "1")
+	case "nreset":
+		w.ns[n].Reset()
+	default:
+		panic("implOp " + f[0])
+	}
+}
+
+// shadowOp is the same operation on the harness' registry (the specification relation).
+func (w *world) shadowOp(f []string) {
+	n := idx(f[1], numNotifiers)
+	switch f[0] {
+	case "reg":
+		t := idx(f[2], numTargets)
+		p := hx.Atoi(f[3])
+		for _, h := range f[4:] {
+			if s := segs(string(hx.UnHex(h))); len(s) > 0 {
+				k := strings.Join(s, ".")
+				if w.shadow[n][k] == nil {
+					w.shadow[n][k] = make(map[int]int)
+				}
+				w.shadow[n][k][t] = p
+			}
+		}
+	case "unreg":
+		t := idx(f[2], numTargets)
+		for _, set := range w.shadow[n] {
+			delete(set, t)
+		}
+	case "merge":
+		m := idx(f[2], numNotifiers)
+		if n != m {
+			for k, set := range w.shadow[m] {
+				if w.shadow[n][k] == nil {
+					w.shadow[n][k] = make(map[int]int)
+				}
+				for t, p := range set {
+					w.shadow[n][k][t] = p
+				}
+			}
+		}
+	case "nreset":
+		w.shadow[n] = make(map[string]map[int]int)
+	}
 }
 
 // area: dumps=false is the black-box protocol (area `notifier`), dumps=true adds white-box `dump` lines (area `nwb`).
@@ -180,236 +344,50 @@ func (a *area) Run(line string) string {
 		a.w = newWorld()
 	}
 	w := a.w
-	idx := func(s string, lim int) int {
-		v := hx.Atoi(s)
-		if v < 0 || v >= lim {
-			panic("index")
-		}
-		return v
-	}
 	if len(f) < 2 {
 		return "bad-op"
 	}
 	n := idx(f[1], numNotifiers)
 	switch f[0] {
-	case "reg":
-		t := idx(f[2], numTargets)
-		p := hx.Atoi(f[3])
-		names := make([]string, 0, len(f)-4)
-		for _, h := range f[4:] {
-			names = append(names, string(hx.UnHex(h)))
+	case "reg", "unreg", "merge", "enable", "nreset":
+		w.implOp(f)
+		w.shadowOp(f)
+	case "arm": // arm <n> <op...>: the re-entrant target will execute <op...> inside its next HandleNotification
+		switch f[2] {
+		case "reg", "unreg", "merge", "enable", "nreset":
+			idx(f[3], numNotifiers)
+			w.armed = f[2:]
+		default:
+			return "bad-op"
 		}
-		w.ns[n].Register(w.ts[t], p, names...)
-		for _, nm := range names {
-			if s := segs(nm); len(s) > 0 {
-				k := strings.Join(s, ".")
-				if w.shadow[n][k] == nil {
-					w.shadow[n][k] = make(map[int]int)
-				}
-				w.shadow[n][k][t] = p
-			}
-		}
-	case "unreg":
-		t := idx(f[2], numTargets)
-		w.ns[n].Unregister(w.ts[t])
-		for _, set := range w.shadow[n] {
-			delete(set, t)
-		}
-	case "merge":
-		m := idx(f[2], numNotifiers)
-		w.ns[n].RegisterFromNotifier(w.ns[m])
-		if n != m {
-			for k, set := range w.shadow[m] {
-				if w.shadow[n][k] == nil {
-					w.shadow[n][k] = make(map[int]int)
-				}
-				for t, p := range set {
-					w.shadow[n][k][t] = p
-				}
-			}
-		}
-	case "enable":
-		w.ns[n].SetEnabled(f[2] == "1")
-	case "nreset":
-		w.ns[n].Reset()
-		w.shadow[n] = make(map[string]map[int]int)
 	case "start":
 		w.ns[n].StartBatch()
 	case "end":
 		w.ns[n].EndBatch()
 	case "notify":
 		w.wantData, w.wantProd = nil, w.ns[n]
-		w.ns[n].Notify(string(hx.UnHex(f[2])), w.ns[n])
+		if len(f) > 3 { // nil producer
+			w.wantProd = nil
+		}
+		w.ns[n].Notify(string(hx.UnHex(f[2])), w.wantProd)
 	case "notifyd":
-		w.wantData, w.wantProd = w.ts[0], w
-		w.ns[n].NotifyWithData(string(hx.UnHex(f[2])), w.ts[0], w)
+		k := 3
+		if len(f) > 3 {
+			k = hx.Atoi(f[3])
+		}
+		w.wantData, w.wantProd = w.dataKind(k), w
+		w.ns[n].NotifyWithData(string(hx.UnHex(f[2])), w.wantData, w)
 	case "dump":
 		return dump(w, n)
 	default:
 		return "bad-op"
 	}
-	return w.observe(n)
-}
-
-// ---------------------------------------------------------------------------------------------- generator
-
-var pool = []string{"a", "a", "a", "b", "b", "bc", "c", "a", "b", "foo", "bar", "barn"}
-var prios = []int{-3, -1, 0, 0, 1, 1, 2, 2, 5, 7}
-
-// extreme priorities ("always first" / "always last"): differences that do not fit an int
-var bigPrios = []int{math.MaxInt, math.MaxInt, math.MaxInt - 1, math.MinInt, math.MinInt, math.MinInt + 1, 1 << 62, -(1 << 62),
-	1 << 31, -(1 << 31), 1<<31 - 1, 1 << 32, -(1 << 32), 0, 1, -1}
-
-func genPrio(r *hx.Rng) int {
-	if r.Chance(1, 4) {
-		return hx.Pick(r, bigPrios)
+	out := w.observe(n)
+	for _, d := range w.deferred {
+		w.shadowOp(d)
 	}
-	return hx.Pick(r, prios)
-}
-
-func genSegs(r *hx.Rng) []string {
-	d := 1 + r.Intn(2)
-	if r.Chance(1, 5) {
-		d = 3 + r.Intn(2)
-	}
-	s := make([]string, d)
-	for i := range s {
-		s[i] = hx.Pick(r, pool)
-	}
-	return s
-}
-
-// render writes the segments with noise dots (empty segments, repeated/leading/trailing dots).
-func render(r *hx.Rng, s []string) string {
-	var sb strings.Builder
-	if r.Chance(1, 6) {
-		sb.WriteString(strings.Repeat(".", 1+r.Intn(2)))
-	}
-	for i, x := range s {
-		if i > 0 {
-			sb.WriteByte('.')
-			if r.Chance(1, 6) {
-				sb.WriteString(strings.Repeat(".", 1+r.Intn(2)))
-			}
-		}
-		sb.WriteString(x)
-	}
-	if r.Chance(1, 6) {
-		sb.WriteString(strings.Repeat(".", 1+r.Intn(2)))
-	}
-	return sb.String()
-}
-
-// related derives a name from a known one: itself, a child, a parent, or a textual extension of the last segment.
-func related(r *hx.Rng, known [][]string) []string {
-	if len(known) == 0 {
-		return genSegs(r)
-	}
-	base := append([]string(nil), hx.Pick(r, known)...)
-	switch r.Intn(7) {
-	case 0, 1:
-		return base
-	case 2, 3:
-		return append(base, hx.Pick(r, pool))
-	case 4:
-		if len(base) > 1 {
-			return base[:len(base)-1]
-		}
-		return base
-	case 5: // shares a textual prefix only: a.b -> a.bc, foo.bar -> foo.barn
-		base[len(base)-1] += hx.Pick(r, []string{"c", "n", "a"})
-		return base
-	default: // textual prefix of the last segment: a.bc -> a.b
-		l := base[len(base)-1]
-		if len(l) > 1 {
-			base[len(base)-1] = l[:len(l)-1]
-		}
-		return base
-	}
-}
-
-func genName(r *hx.Rng, known *[][]string, learn bool) string {
-	if r.Chance(1, 20) {
-		return hx.Pick(r, []string{"", ".", "..", "..."})
-	}
-	var s []string
-	if r.Chance(5, 6) {
-		s = related(r, *known)
-	} else {
-		s = genSegs(r)
-	}
-	if !learn {
-		return render(r, s)
-	}
-	if len(*known) < 6 {
-		*known = append(*known, s)
-	} else if r.Chance(1, 6) {
-		(*known)[r.Intn(len(*known))] = s
-	}
-	return render(r, s)
-}
-
-func (a *area) Gen(r *hx.Rng, n int, _ string, emit func(string)) {
-	count := 0
-	for count < n {
-		emit("reset")
-		var known [][]string
-		k := r.Range(6, 40)
-		for i := 0; i < k; i++ {
-			nn := strconv.Itoa(r.Intn(numNotifiers))
-			if r.Chance(2, 3) {
-				nn = "0" // most of the action on one notifier so that histories are deep
-			}
-			t := strconv.Itoa(r.Intn(numTargets))
-			switch x := r.Intn(100); {
-			case x < 28:
-				cnt := 1
-				switch r.Intn(8) {
-				case 0:
-					cnt = 0
-				case 1, 2:
-					cnt = 2
-				case 3:
-					cnt = 3
-				}
-				parts := []string{"reg", nn, t, strconv.Itoa(genPrio(r))}
-				for j := 0; j < cnt; j++ {
-					parts = append(parts, hx.Hex([]byte(genName(r, &known, true))))
-				}
-				emit(strings.Join(parts, " "))
-			case x < 60:
-				op := "notify"
-				if r.Chance(1, 4) {
-					op = "notifyd"
-				}
-				emit(op + " " + nn + " " + hx.Hex([]byte(genName(r, &known, false))))
-			case x < 67:
-				emit("unreg " + nn + " " + t)
-			case x < 74:
-				emit("merge " + nn + " " + strconv.Itoa(r.Intn(numNotifiers)))
-			case x < 79:
-				emit("enable " + nn + " " + strconv.Itoa(min(1, r.Intn(3))))
-			case x < 82:
-				emit("nreset " + nn)
-			case x < 88:
-				emit("start " + nn)
-			case x < 97:
-				emit("end " + nn)
-			default:
-				if a.dumps {
-					emit("dump " + nn)
-				} else {
-					emit("notify " + nn + " " + hx.Hex([]byte(genName(r, &known, false))))
-				}
-			}
-			count++
-		}
-		if a.dumps {
-			emit("dump 0")
-			emit("dump 1")
-			count += 2
-		}
-	}
+	w.deferred = w.deferred[:0]
+	return out
 }
 
 func main() {
